@@ -34,6 +34,7 @@ func checkC05(w *World, r *Report) {
 	r.Explanation += " Round 10: reflect Slice is legal on slices and strings only; (R05.16) loop counters are not advanced by a possibly-zero length; tagless switch cases refine index facts."
 	r.Explanation += " Round 11: (R05.17) indexes into []rune(s) are checked against the rune count."
 	r.Explanation += " Round 12: (R05.18) field paths are followed with FieldByIndexErr; (R05.19) tables of a render context are allocated when they are written."
+	r.Explanation += " Round 14: (R05.20) search results used as bounds or indices are tested first."
 	r.RuleText = "obligation = one potential panic site of the enumerated families; non-trivial = sites that needed a dominance or interval argument (everything except constant/loop-bounded indexes)"
 	r.Trusted = []string{"go/types constant evaluation", "the Go runtime's definition of which reflect calls panic on which kinds"}
 
